@@ -3,6 +3,8 @@
 package chain
 
 import (
+	"context"
+
 	"0chain.net/chaincore/block"
 	"0chain.net/chaincore/round"
 )
@@ -26,4 +28,9 @@ func (c *Chain) VerifResetRoundsBlocks(gb *block.Block, gr round.RoundI) {
 	c.roundsMutex.Lock()
 	c.rounds = map[int64]round.RoundI{gr.GetRoundNumber(): gr}
 	c.roundsMutex.Unlock()
+}
+
+// VerifStartBlockFetchWorker starts the block fetch worker as Chain.SetupWorkers does.
+func (c *Chain) VerifStartBlockFetchWorker(ctx context.Context) {
+	go c.blockFetcher.StartBlockFetchWorker(ctx, c)
 }
